@@ -9,6 +9,7 @@ mod alloc_count;
 mod props_a;
 mod props_b;
 mod props_c;
+mod props_d;
 mod real;
 mod run;
 mod value;
@@ -242,6 +243,8 @@ fn main() {
         "replay-c18" => props_b::replay_c18(&a.rest),
         "replay-c12" => props_c::replay_c12(&a.rest),
         "replay-c13" => props_c::replay_c13(&a.rest),
+        "replay-c19" => props_d::replay_c19(&a.rest),
+        "c19" => props_d::c19(&a),
         "c12" => props_c::c12(&a),
         "c13" => props_c::c13(&a),
         "c14" => props_c::c14(&a),
